@@ -30,6 +30,10 @@ Unit 5 classes: `LinkedLayer` <kind hex> version <uuid hex> filename <hex> <hex>
 opt(year <n> n* <bits>) opt<data hex> opt str opt<bits> opt<n> (block = the descriptor block tokens of Driver/Descriptor.lean) ·
 `LinkedLayers` <n> item*.
 
+Unit 6 classes: `SmartObjectLayerData` <kind hex> version block · `PlacedLayerData` <kind hex> version <uuid hex> page totalPages
+antiAlias layerType <n> bits* block2 · `TypeToolObjectSetting` version <n> bits* textVersion block warpVersion block left top right
+bottom (`pad` of `pl.enc` is the `padding` argument of `write`).
+
 Unit 1 classes: `LayerInfoBlock` (tokens of a LayerInfo), `TaggedBlock` (signature key payload, payload = `0 <hex>` raw |
 `1 <LayerInfo>`), `PSD` (the deep document: header, colour mode data, resources, layer info, global mask info,
 typed blocks, image data; `version` is ignored, `pad` is the layer-info padding).
@@ -42,6 +46,7 @@ import PsdVerif.Model.PayloadSimple
 import PsdVerif.Model.PayloadEffects
 import PsdVerif.Model.PayloadPatterns
 import PsdVerif.Model.PayloadLinked
+import PsdVerif.Model.PayloadDescWrap
 import PsdVerif.Model.DescriptorTables
 
 namespace Driver.Payload
@@ -226,6 +231,28 @@ def tLinked (x : LinkedLayer) : T :=
   tOpt (fun (t : Timestamp) => tNat t.year ++ tList tNat t.fields ++ tF64 t.seconds) x.timestamp ++
   tOpt tBytes x.data ++ tOpt tStr x.childId ++ tOpt tF64 x.modTime ++ tOpt tNat x.lockState
 
+/-! ### unit 6 tokens -/
+
+def pBlock2D : P Descriptor.Block2 := Driver.Descriptor.pBlock2
+def tBlock2D (b : Descriptor.Block2) : T := Driver.Descriptor.tBlock2 b []
+
+def pSmartObject : P SmartObjectLayerData := do let k ← pBytes; let v ← pNat; let b ← pBlockD; pure ⟨k, v, b⟩
+def tSmartObject (x : SmartObjectLayerData) : T := tBytes x.kind ++ tNat x.version ++ tBlockD x.data
+def pPlaced : P PlacedLayerData := do
+  let k ← pBytes; let v ← pNat; let u ← pBytes; let pg ← pNat; let tp ← pNat; let aa ← pNat; let lt ← pNat; let tr ← pList pF64
+  let w ← pBlock2D
+  pure ⟨k, v, u, pg, tp, aa, lt, tr, w⟩
+def tPlaced (x : PlacedLayerData) : T :=
+  tBytes x.kind ++ tNat x.version ++ tBytes x.uuid ++ tNat x.page ++ tNat x.totalPages ++ tNat x.antiAlias ++ tNat x.layerType ++
+  tList tF64 x.transform ++ tBlock2D x.warp
+def pTypeTool : P TypeToolObjectSetting := do
+  let v ← pNat; let tr ← pList pF64; let tv ← pNat; let td ← pBlockD; let wv ← pNat; let w ← pBlockD
+  let l ← pInt; let t ← pInt; let r ← pInt; let b ← pInt
+  pure ⟨v, tr, tv, td, wv, w, l, t, r, b⟩
+def tTypeTool (x : TypeToolObjectSetting) : T :=
+  tNat x.version ++ tList tF64 x.transform ++ tNat x.textVersion ++ tBlockD x.textData ++ tNat x.warpVersion ++ tBlockD x.warp ++
+  tInt x.left ++ tInt x.top ++ tInt x.right ++ tInt x.bottom
+
 /-! ### answers -/
 
 def encOut (r : Except Err W) (wf : Bool) (after : T) : String :=
@@ -278,6 +305,9 @@ def encCmd (cls : String) (v pad : Nat) (toks : String) : String :=
   | "Patterns" => pcEnc Patterns.codec (pList pPattern) toks
   | "LinkedLayer" => pcEnc (LinkedLayer.codec rtb pad) pLinked toks
   | "LinkedLayers" => pcEnc (LinkedLayers.codec rtb) (pList pLinked) toks
+  | "SmartObjectLayerData" => pcEnc (SmartObjectLayerData.codec rtb pad) pSmartObject toks
+  | "PlacedLayerData" => pcEnc (PlacedLayerData.codec rtb pad) pPlaced toks
+  | "TypeToolObjectSetting" => pcEnc (TypeToolObjectSetting.codec rtb pad) pTypeTool toks
   | "LayerInfoBlock" =>
     (match parseAll pLayerInfo toks with
      | some li => encOut (LayerInfoBlock.encW v pad li) (decide (LayerInfoBlock.WF v li)) (tLayerInfo (blockRefresh li))
@@ -330,6 +360,9 @@ def decCmd (cls : String) (v pad : Nat) (d : B) (p : Nat) : String :=
   | "Patterns" => pcDec Patterns.codec (tList tPattern) d p
   | "LinkedLayer" => pcDec (LinkedLayer.codec rtb pad) tLinked d p
   | "LinkedLayers" => pcDec (LinkedLayers.codec rtb) (tList tLinked) d p
+  | "SmartObjectLayerData" => pcDec (SmartObjectLayerData.codec rtb pad) tSmartObject d p
+  | "PlacedLayerData" => pcDec (PlacedLayerData.codec rtb pad) tPlaced d p
+  | "TypeToolObjectSetting" => pcDec (TypeToolObjectSetting.codec rtb pad) tTypeTool d p
   | "LayerInfoBlock" => decOut tLayerInfo (LayerInfoBlock.dec v d p)
   | "TaggedBlock" => decOut (tOpt tTBlock) (TBlock.dec v pad d p)
   | "PSD" => decOut tDeepPSD (DeepPSD.read d p)
